@@ -476,8 +476,9 @@ class PointCloud(Geometry3D):
         # copy vertex and face data
         copied._data.data = copy.deepcopy(self._data.data)
 
-        # copy visual data
-        copied.visual = copy.deepcopy(self.visual)
+        # copy visual data: the visual refers back to its point cloud so
+        # tell the deep copy that this reference ends up at the new object
+        copied.visual = copy.deepcopy(self.visual, {id(self): copied})
 
         # get metadata
         copied.metadata = copy.deepcopy(self.metadata)
